@@ -4,6 +4,8 @@ import Tbx.Spec.GraphText
 import Tbx.Proofs.BincodeRoundtrip
 import Tbx.Proofs.PlierRender
 import Tbx.Proofs.PlierRat
+import Tbx.Proofs.PlierGlue
+import Tbx.Proofs.PlierText
 /-
 C07 — Graph Plier and the loaders preserve the input graph exactly.
 
@@ -15,10 +17,12 @@ Part B: the token-level parsers return exactly the edge / coordinate list an abs
         for every token-level rendering of that file.
 Part C: both together — what the model of graph_plier writes decodes to the described lists.
 Part D: the judge's checkers mean what the Spec says.
+Part T: down to characters — for the canonical spelling (one blank between tokens, plain decimal
+        numerals) the text -> token glue is proved too, so `parse (text of F) = edges of F`.
 Part E: clauses that are stated but not proved (floating point).
 -/
 namespace Tbx.Props.C07
-open Tbx.Bincode Tbx.GraphFiles Tbx.GraphSpec Tbx.PlierRender
+open Tbx.Bincode Tbx.GraphFiles Tbx.GraphSpec Tbx.PlierRender Tbx.PlierText
 
 /-! ## Part A: bincode round trips -/
 
@@ -60,6 +64,13 @@ theorem vec_roundtrip {α : Type} (enc : α → List Nat) (dec : List Nat → Op
     (h : ∀ x ∈ xs, ∀ r, dec (enc x ++ r) = some (x, r)) :
     decodeVec dec (encodeVec enc xs ++ rest) = some (xs, rest) :=
   decodeVec_encodeVec enc dec xs rest (by simpa using hl) h
+
+/-- non-vacuity: the element hypothesis of `vec_roundtrip` holds for edges that fit usize -/
+example : ∀ x ∈ [(⟨0, 1, 250⟩ : InputEdge), ⟨299, 0, 70000⟩], ∀ r, decodeEdge (encodeEdge x ++ r) = some (x, r) := by
+  intro x hx r
+  apply decodeEdge_encodeEdge
+  simp at hx
+  rcases hx with rfl | rfl <;> simp [EdgeFits]
 
 /-- `Vec<InputEdge<usize>>` of any length: decode (encode es) = es, nothing left over -/
 theorem decode_encode_edges (es : List InputEdge) (hl : es.length < 2 ^ 64) (hf : ∀ e ∈ es, EdgeFits e) :
@@ -134,15 +145,19 @@ theorem dimacs_coords_parse_render (G : List DimacsCoItem) (ls : List Line)
     GraphFiles.dimacsCoords ls = some (GraphSpec.dimacsCoords G) :=
   dimacsCoords_render G ls h
 
-example : Forall2 DimacsCoLineOf [.comment, .problem 2, .vertex 1 (-73935242) 40730610, .vertex 2 5 (-7)]
-    [ ⟨some 'c', false, [], [], none, none⟩,
-      ⟨some 'p', false, [], [], some 2, none⟩,
-      ⟨some 'v', false, [], [natTok 1, intTok (-73935242), intTok 40730610], none, none⟩,
-      ⟨some 'v', false, [], [natTok 2, intTok 5, intTok (-7)], none, none⟩ ] ∧
-    GraphSpec.dimacsCoords [.comment, .problem 2, .vertex 1 (-73935242) 40730610, .vertex 2 5 (-7)] =
-      [⟨40730610, -73935242⟩, ⟨-7, 5⟩] := by
-  refine ⟨?_, by decide⟩
-  simp [Forall2, DimacsCoLineOf, natTok, intTok]
+def exCoFile : List DimacsCoItem := [.comment, .problem 2, .vertex 1 (-73935242) 40730610, .vertex 2 5 (-7)]
+def exCoLines : List Line :=
+  [ ⟨some 'c', false, [], [], none, none⟩,
+    ⟨some 'p', false, [], [], some 2, none⟩,
+    ⟨some 'v', false, [], [natTok 1, intTok (-73935242), intTok 40730610], none, none⟩,
+    ⟨some 'v', false, [], [natTok 2, intTok 5, intTok (-7)], none, none⟩ ]
+
+theorem exCo_renders : Forall2 DimacsCoLineOf exCoFile exCoLines := by
+  simp [Forall2, exCoFile, exCoLines, DimacsCoLineOf, natTok, intTok]
+
+example : Forall2 DimacsCoLineOf exCoFile exCoLines ∧
+    GraphSpec.dimacsCoords exCoFile = [⟨40730610, -73935242⟩, ⟨-7, 5⟩] :=
+  ⟨exCo_renders, by decide⟩
 
 /-- METIS: header `n …`, then one adjacency line per node (empty = isolated); every rendering parses
 to the 0-based, loop-free unit-weight edge list in file order -/
@@ -208,6 +223,24 @@ theorem plier_dimacs_preserves (F : List DimacsItem) (G : List DimacsCoItem) (g 
     decode_encode_edges _ hl1 hf1, decode_trivial_edges _ hl1 hf1, decode_encode_coords _ hl2 hf2⟩
   simp [plier, readGraph, readCoordinates, dimacsGraph_render F g hg hwf, dimacsCoords_render G c hc]
 
+/-- non-vacuity: the example files above satisfy every hypothesis of `plier_dimacs_preserves` -/
+example : Forall2 DimacsLineOf exDimacsFile exDimacsLines ∧ Forall2 DimacsCoLineOf exCoFile exCoLines ∧
+    DimacsWF exDimacsFile ∧
+    (∀ u v w, DimacsItem.arc u v w ∈ exDimacsFile → u < 2 ^ 64 ∧ v < 2 ^ 64 ∧ w < 2 ^ 64) ∧
+    (∀ id lon lat, DimacsCoItem.vertex id lon lat ∈ exCoFile → I32 lon ∧ I32 lat) := by
+  refine ⟨?_, exCo_renders, ?_, ?_, ?_⟩
+  · simp [Forall2, exDimacsFile, exDimacsLines, DimacsLineOf, natTok]
+  · intro u v w hm
+    simp [exDimacsFile] at hm
+    omega
+  · intro u v w hm
+    simp [exDimacsFile] at hm
+    omega
+  · intro id lon lat hm
+    simp [exCoFile] at hm
+    unfold I32
+    omega
+
 /-- for any format: whatever the two loaders return is what the written files decode to -/
 theorem plier_writes_what_was_read (fmt : Format) (g c : List Line) (es : List InputEdge)
     (cs : List FPCoordinate) (hg : readGraph fmt g = some es) (hc : readCoordinates fmt c = some cs)
@@ -218,6 +251,39 @@ theorem plier_writes_what_was_read (fmt : Format) (g c : List Line) (es : List I
       decodeCoords cb = some (cs, []) :=
   ⟨encodeEdges es, encodeCoords cs, by simp [plier, hg, hc],
     decode_encode_edges es hle hfe, decode_trivial_edges es hle hfe, decode_encode_coords cs hlc hfc⟩
+
+/-- non-vacuity: the DIMACS example is an instance (readGraph / readCoordinates succeed on it) -/
+example : readGraph .dimacs exDimacsLines = some [⟨0, 1, 250⟩, ⟨299, 0, 70000⟩] ∧
+    readCoordinates .dimacs exCoLines = some [⟨40730610, -73935242⟩, ⟨-7, 5⟩] := by
+  decide
+
+/-- METIS graph part: for every rendering of a well-formed adjacency description and any coordinate file
+the coordinate loader accepts, the written graph file decodes to exactly the described edges -/
+theorem plier_metis_preserves_graph (n : Nat) (adj : List (List Nat)) (l0 : Line) (ls c : List Line)
+    (cs : List FPCoordinate)
+    (h0 : MetisHeaderOf n l0) (h : Forall2 AdjLineOf adj ls) (hwf : MetisWF n adj) (hn : n < 2 ^ 64)
+    (hlen : (metisEdges adj).length < 2 ^ 64) (hc : metisCoords c = some cs) :
+    ∃ gb cb, plier .metis (l0 :: ls) c = some (gb, cb) ∧
+      decodeEdges gb = some (metisEdges adj, []) ∧
+      decodeTrivialEdges gb = some ((metisEdges adj).map fun e => (e.source, e.target)) := by
+  have hf := metisEdgesFrom_fits n 0 adj (by simpa using hn) (by simpa using hwf.1) hwf.2
+  refine ⟨encodeEdges (metisEdges adj), encodeCoords cs, ?_,
+    decode_encode_edges _ hlen hf, decode_trivial_edges _ hlen hf⟩
+  simp [plier, readGraph, readCoordinates, metisGraph_render n adj l0 ls h0 h hwf, hc]
+
+/-- DDSG graph part, likewise -/
+theorem plier_ddsg_preserves_graph (arcs : List DdsgArc) (l0 l1 : Line) (ls c : List Line)
+    (cs : List FPCoordinate)
+    (hd : l0.isD = true) (h1 : 2 ≤ l1.toks.length) (h : Forall2 DdsgArcOf arcs ls) (hwf : DdsgWF arcs)
+    (hfit : ∀ a ∈ arcs, a.u < 2 ^ 64 ∧ a.v < 2 ^ 64 ∧ a.w < 2 ^ 64)
+    (hlen : (ddsgEdges arcs).length < 2 ^ 64) (hc : ddsgCoords c = some cs) :
+    ∃ gb cb, plier .ddsg (l0 :: l1 :: ls) c = some (gb, cb) ∧
+      decodeEdges gb = some (ddsgEdges arcs, []) ∧
+      decodeTrivialEdges gb = some ((ddsgEdges arcs).map fun e => (e.source, e.target)) := by
+  have hf := ddsgEdges_fits arcs (by simpa using hfit)
+  refine ⟨encodeEdges (ddsgEdges arcs), encodeCoords cs, ?_,
+    decode_encode_edges _ hlen hf, decode_trivial_edges _ hlen hf⟩
+  simp [plier, readGraph, readCoordinates, ddsgGraph_render arcs l0 l1 ls hd h1 h hwf, hc]
 
 /-! ## Part D: the judge's checkers -/
 
@@ -237,6 +303,99 @@ theorem judge_within_sound (ds : List (Dec × Dec)) (cs : List FPCoordinate) :
 example : WithinMicro ⟨123456, 3⟩ 1234 ∧ WithinMicro ⟨-1, 0⟩ (-9) ∧ ¬ WithinMicro ⟨-1, 0⟩ (-8) := by
   simp [WithinMicro]
 
+/-! ## Part T: canonical text, character level -/
+
+/-- the glue's `usize::from_str` / `i32::from_str` invert plain decimal rendering -/
+theorem parse_decimal_canonical :
+    (∀ n : Nat, n < 2 ^ 64 → parseUsize (Nat.toDigits 10 n) = some n) ∧
+    (∀ i : Int, I32 i → parseI32 (intChars i) = some i) :=
+  ⟨fun n h => parseUsize_toDigits n (by simpa using h), parseI32_intChars⟩
+
+example : Nat.toDigits 10 70000 = ['7', '0', '0', '0', '0'] ∧ intChars (-126) = ['-', '1', '2', '6'] := by
+  decide
+
+/-- the glue's tokenizer inverts joining tokens with single blanks -/
+theorem tokenizer_single_blank (ts : List (List Char)) (h : ∀ t ∈ ts, IsToken t) :
+    splitWs (joinBlank ts) = ts :=
+  splitWs_joinBlank ts h
+
+example : joinBlank [['a'], ['1', '2'], ['7']] = ['a', ' ', '1', '2', ' ', '7'] ∧
+    IsToken ['1', '2'] := by
+  refine ⟨by decide, by simp, ?_⟩
+  intro c hc
+  simp at hc
+  rcases hc with rfl | rfl <;> decide
+
+/-- DIMACS `.gr` as characters: `c` / `p sp n m` / `a u v w` lines in canonical spelling are accepted by
+the glue and parse to the described edge list -/
+theorem dimacs_text_parse (F : List DimacsItem) (hf : ∀ it ∈ F, DimacsFits it) (hwf : DimacsWF F) :
+    ∃ ls, mkLinesC (F.map dimacsText) = some ls ∧ dimacsGraph ls = some (dimacsEdges F) :=
+  dimacs_text F hf hwf
+
+example : (exDimacsFile.map dimacsText) =
+    [['c'], ['p', ' ', 's', 'p', ' ', '3', '0', '0', ' ', '4'], ['a', ' ', '1', ' ', '2', ' ', '2', '5', '0'],
+     ['a', ' ', '3', ' ', '3', ' ', '9'], ['c'],
+     ['a', ' ', '3', '0', '0', ' ', '1', ' ', '7', '0', '0', '0', '0']] ∧
+    (∀ it ∈ exDimacsFile, DimacsFits it) := by
+  refine ⟨by decide, ?_⟩
+  intro it hit
+  simp [exDimacsFile] at hit
+  rcases hit with rfl | rfl | rfl | rfl | rfl | rfl <;> simp [DimacsFits]
+
+/-- DIMACS `.co` as characters: `c` / `p aux sp co n` / `v id lon lat` -/
+theorem dimacs_coords_text_parse (G : List DimacsCoItem) (hf : ∀ it ∈ G, DimacsCoFits it) :
+    ∃ ls, mkLinesC (G.map dimacsCoText) = some ls ∧
+      GraphFiles.dimacsCoords ls = some (GraphSpec.dimacsCoords G) :=
+  dimacsCo_text G hf
+
+example : dimacsCoText (.vertex 2 5 (-7)) = ['v', ' ', '2', ' ', '5', ' ', '-', '7'] ∧
+    dimacsCoText (.problem 2) = ['p', ' ', 'a', 'u', 'x', ' ', 's', 'p', ' ', 'c', 'o', ' ', '2'] ∧
+    DimacsCoFits (.vertex 2 5 (-7)) := by
+  refine ⟨by decide, by decide, ?_⟩
+  simp [DimacsCoFits, I32]
+
+/-- METIS as characters: header `n m`, one line of neighbours per node (an empty line = isolated) -/
+theorem metis_text_parse (n m : Nat) (adj : List (List Nat)) (hn : n < 2 ^ 64) (hwf : MetisWF n adj) :
+    ∃ ls, mkLinesC (metisHeaderText n m :: adj.map metisAdjText) = some ls ∧
+      metisGraph ls = some (metisEdges adj) :=
+  metis_text n m adj (by simpa using hn) hwf
+
+example : [[2, 3], [1, 1, 2], [], [5, 4, 4]].map metisAdjText =
+    [['2', ' ', '3'], ['1', ' ', '1', ' ', '2'], [], ['5', ' ', '4', ' ', '4']] := by
+  decide
+
+/-- DDSG as characters: `d`, `n m`, `u v w dir` -/
+theorem ddsg_text_parse (n m : Nat) (arcs : List DdsgArc)
+    (hf : ∀ a ∈ arcs, a.u < 2 ^ 64 ∧ a.v < 2 ^ 64 ∧ a.w < 2 ^ 64) (hwf : DdsgWF arcs) :
+    ∃ ls, mkLinesC (['d'] :: metisHeaderText n m :: arcs.map ddsgArcText) = some ls ∧
+      ddsgGraph ls = some (ddsgEdges arcs) :=
+  ddsg_text n m arcs (by simpa using hf) hwf
+
+example : ddsgArcText ⟨2, 3, 7, 2⟩ = ['2', ' ', '3', ' ', '7', ' ', '2'] := by decide
+
+/-- DIMACS, characters to bytes and back: the model of graph_plier applied to the canonical text of a
+well-formed graph / coordinate file pair writes files that decode to exactly the described lists -/
+theorem plier_dimacs_text_preserves (F : List DimacsItem) (G : List DimacsCoItem)
+    (hf : ∀ it ∈ F, DimacsFits it) (hg : ∀ it ∈ G, DimacsCoFits it) (hwf : DimacsWF F)
+    (hF : F.length < 2 ^ 64) (hG : G.length < 2 ^ 64) :
+    ∃ g c gb cb, mkLinesC (F.map dimacsText) = some g ∧ mkLinesC (G.map dimacsCoText) = some c ∧
+      plier .dimacs g c = some (gb, cb) ∧
+      decodeEdges gb = some (dimacsEdges F, []) ∧
+      decodeTrivialEdges gb = some ((dimacsEdges F).map fun e => (e.source, e.target)) ∧
+      decodeCoords cb = some (GraphSpec.dimacsCoords G, []) := by
+  obtain ⟨g, hg1, hg2⟩ := dimacs_text F hf hwf
+  obtain ⟨c, hc1, hc2⟩ := dimacsCo_text G hg
+  have hl1 : (dimacsEdges F).length < 2 ^ 64 := Nat.lt_of_le_of_lt (dimacsEdges_length_le F) hF
+  have hl2 : (GraphSpec.dimacsCoords G).length < 2 ^ 64 := Nat.lt_of_le_of_lt (dimacsCoords_length_le G) hG
+  have hf1 := dimacsEdges_fits F (fun u v w hm => by simpa [DimacsFits] using hf _ hm)
+  have hf2 := dimacsCoords_fits G (fun id lon lat hm => by
+    have := hg _ hm
+    simp only [DimacsCoFits] at this
+    exact ⟨this.2.1, this.2.2⟩)
+  refine ⟨g, c, encodeEdges (dimacsEdges F), encodeCoords (GraphSpec.dimacsCoords G), hg1, hc1, ?_,
+    decode_encode_edges _ hl1 hf1, decode_trivial_edges _ hl1 hf1, decode_encode_coords _ hl2 hf2⟩
+  simp [plier, readGraph, readCoordinates, hg2, hc2]
+
 /-! ## Part E: stated, not proved -/
 
 /-- decimal digits as characters -/
@@ -255,10 +414,5 @@ def float_path_within_statement : Prop :=
     ∃ x : Float,
       parseF64 ((if neg then ['-'] else []) ++ digitChars ip ++ (if fp = [] then [] else '.' :: digitChars fp)) = some x ∧
       WithinMicro ⟨(if neg then -1 else 1) * Int.ofNat (digitsNat (ip ++ fp)), fp.length⟩ (toMicro (x / 100000.0))
-
-/-- the glue's decimal parser inverts decimal rendering (tokenizer/decimal parsing are glue: exercised by
-the correspondence run on every generated file, not proved) -/
-def parseUsize_render_statement : Prop :=
-  ∀ n : Nat, n < 2 ^ 64 → parseUsize (Nat.toDigits 10 n) = some n
 
 end Tbx.Props.C07
